@@ -18,25 +18,40 @@ use serde::{Deserialize, Serialize};
 pub struct Scn {
     pub guest: GuestSpec,
     pub cfg: SysCfg,
+    /// control lines at seeded boundaries: `u8:` writes to timer registers from outside, pause / start episodes
+    #[serde(default)]
+    pub events: Vec<Event>,
 }
 
 struct TObs {
     lock: TimerLockstep,
-    pending: Option<(u32, u8)>,
+    pending: Vec<(u32, crate::harness::decode::ByteStore)>,
+    /// timer-register bytes written from outside (`u8:` lines) at the top of the previous iteration
+    ext: Vec<(u32, u8)>,
+    ext_seen: u64,
     sig: Fnv,
 }
 
 impl Observer for TObs {
     fn boundary(&mut self, cpu: &mut Cpu, g: &Guest, row: &Row, prev: Option<&Row>, _new: &[String]) -> Result<(), Failure> {
-        self.lock.boundary(cpu, g, row, prev, self.pending).map_err(|e| Failure::new("c17.sys.phase", e))?;
+        let ext = std::mem::take(&mut self.ext);
+        self.lock.boundary(cpu, g, row, prev, &ext, &self.pending).map_err(|e| Failure::new("c17.sys.phase", e))?;
         self.pending = decode_timer_store(cpu, row.pc, &cpu.er);
-        if let Some((r, v)) = self.pending {
+        for (r, _) in &self.pending {
             self.sig.byte((r & 0xf) as u8);
-            if r == 0xffff80 {
-                self.sig.byte(v);
-            }
         }
         Ok(())
+    }
+    fn fired(&mut self, _cpu: &mut Cpu, _g: &Guest, _row: &Row, _idx: usize, act: &Action) {
+        if let Action::Lines(ls) = act {
+            for l in ls {
+                if let Some((a, v)) = crate::harness::decode::parse_u8_line(l) {
+                    self.ext.push((a, v));
+                    self.ext_seen += 1;
+                    self.sig.byte(0x80 | (a & 0xf) as u8);
+                }
+            }
+        }
     }
     fn finish(&mut self, _cpu: &mut Cpu, _g: &Guest, outcome: &Outcome, _last: Option<&Row>, _tail: &[String]) -> Result<(), Failure> {
         if !matches!(outcome, Outcome::Ok) {
@@ -47,6 +62,29 @@ impl Observer for TObs {
 }
 
 pub struct C17S;
+
+/// The same byte store in one of the generated forms: absolute (8/24 bit), @ER6, @(d:16,ER6), @-ER6, or as the high
+/// byte of a word store (the low byte then lands in the neighbouring register of another, unimplemented timer channel).
+pub fn vary_store(rng: &mut Rng, addr: u32, val: u8) -> Block {
+    match rng.below(8) {
+        0 => Block::StoreVia { addr, val, mode: 1, disp: 0 },
+        1 => {
+            // the base register must hold a plain 24-bit address (the emulator reports a base + displacement that leaves
+            // 0..2^24 as an error - effective-address arithmetic is not this check's business)
+            let mut d = *rng.pick(&[-0x80i16, -1, 0, 1, 0x7f, -0x8000, 0x7fff, -0x20]);
+            if d < 0 && addr as i64 - d as i64 > 0x00ff_ffff {
+                d = -d.saturating_add(1).saturating_sub(1).max(-0x7fff);
+            }
+            if d < 0 && addr as i64 - d as i64 > 0x00ff_ffff {
+                d = 0x7f;
+            }
+            Block::StoreVia { addr, val, mode: 2, disp: d }
+        }
+        2 => Block::StoreVia { addr, val, mode: 3, disp: 0 },
+        3 if addr % 2 == 0 => Block::StoreW { addr, val: ((val as u16) << 8) | rng.u8() as u16 },
+        _ => Block::Store { addr, val, short: rng.chance(1, 2) },
+    }
+}
 
 impl Property for C17S {
     type Scn = Scn;
@@ -99,10 +137,19 @@ impl Property for C17S {
                     let hi = if rng.chance(1, 6) { 3000 } else { 120 };
                     Block::Delay(rng.range(1, hi) as u16)
                 }
-                5 => Block::Store { addr: 0xffff80, val: gen_tcr(rng, a, b), short: rng.chance(1, 2) },
-                6 => Block::Store { addr: 0xffff88, val: rng.u8(), short: rng.chance(1, 2) },
+                5 => {
+                    let v = gen_tcr(rng, a, b);
+                    vary_store(rng, 0xffff80, v)
+                }
+                6 => {
+                    let v = rng.u8();
+                    vary_store(rng, 0xffff88, v)
+                }
                 7 => Block::Bclr { aa: 0x82, bit: rng.range(5, 7) as u8 },
-                8 => Block::Store { addr: 0xffff82, val: rng.u8() & 0x1f, short: true },
+                8 => {
+                    let v = rng.u8() & 0x1f;
+                    vary_store(rng, 0xffff82, v)
+                }
                 9 => {
                     // change a compare register, staying distinct and non-zero
                     let which_a = rng.chance(1, 2);
@@ -120,10 +167,10 @@ impl Property for C17S {
                     }
                     if which_a {
                         a = v;
-                        Block::Store { addr: 0xffff84, val: v, short: true }
+                        vary_store(rng, 0xffff84, v)
                     } else {
                         b = v;
-                        Block::Store { addr: 0xffff86, val: v, short: true }
+                        vary_store(rng, 0xffff86, v)
                     }
                 }
                 10 => Block::Call,
@@ -156,7 +203,33 @@ impl Property for C17S {
             exit_style: if rng.chance(1, 2) { 0 } else { rng.below(5) as u8 },
         };
         let est = super::c10::estimate_iters(&guest);
-        Scn { guest, cfg: SysCfg { wait_start: false, clock: ClockModel::Fast, clock_seed: 0, step_cap: est * 5 + 100_000, print_msgs: false, print_opcode: false } }
+        // from outside: `u8:` writes to timer registers (kept inside the property's domain whatever the guest has in the
+        // compare registers: TCNT, flag clears, and clock selections without a clear source), pause / start episodes
+        let mut events = Vec::new();
+        if rng.chance(1, 3) {
+            for _ in 0..rng.range(1, 5) {
+                let line = match rng.below(4) {
+                    0 => format!("u8:ffff88:{:x}", rng.u8()),
+                    1 => format!("u8:ffff82:{:x}", rng.u8() & 0x1f),
+                    2 => {
+                        let cks = if irqs { *rng.pick(&[2u8, 3]) } else { *rng.pick(&[0u8, 1, 2, 3]) };
+                        let ie = if irqs { (rng.below(8) as u8) << 5 } else { 0 };
+                        format!("u8:ffff80:{:x}", ie | ((*rng.pick(&[0u8, 3])) << 3) | cks)
+                    }
+                    _ => format!("u8:{:x}:{:x}", SCRATCH_LO + rng.below(16) as u32, rng.u8()),
+                };
+                events.push(Event { trig: Trigger::Iter(rng.below(est + 2)), act: Action::Lines(vec![line]) });
+            }
+        }
+        if rng.chance(1, 6) {
+            let k = rng.below(est.max(2));
+            events.push(Event { trig: Trigger::Iter(k), act: Action::Lines(vec!["cmd:pause".into()]) });
+            if rng.chance(1, 2) {
+                events.push(Event { trig: Trigger::Iter(k + 1 + rng.below(3)), act: Action::Lines(vec![format!("u8:ffff88:{:x}", rng.u8())]) });
+            }
+            events.push(Event { trig: Trigger::Iter(k + 5 + rng.below(20)), act: Action::Lines(vec!["cmd:start".into()]) });
+        }
+        Scn { guest, cfg: SysCfg { wait_start: false, clock: ClockModel::Fast, clock_seed: 0, step_cap: est * 5 + 100_000, print_msgs: false, print_opcode: false }, events }
     }
 
     fn execute(scn: &Scn, stats: &mut Stats) -> Verdict {
@@ -164,8 +237,8 @@ impl Property for C17S {
             Ok(g) => g,
             Err(e) => return Verdict::Invalid(e),
         };
-        let obs = TObs { lock: TimerLockstep::new(), pending: None, sig: Fnv::new() };
-        let (run, obs) = run_sys(&g, &scn.cfg, &[], obs, false, |_| {});
+        let obs = TObs { lock: TimerLockstep::new(), pending: vec![], ext: vec![], ext_seen: 0, sig: Fnv::new() };
+        let (run, obs) = run_sys(&g, &scn.cfg, &scn.events, obs, false, |_| {});
         if let Outcome::Panic(p) = &run.outcome {
             return Verdict::Fail(Failure::keyed("c17.sys.panic", format!("{}:{}", p.file, p.msg), format!("panic at {}:{}: {}", p.file, p.line, p.msg)));
         }
@@ -199,6 +272,8 @@ impl Property for C17S {
         }
         add(stats, "probe.updates_checked_in_lockstep", obs.lock.updates_checked);
         add(stats, "probe.guest_timer_stores", obs.lock.writes_seen);
+        add(stats, "event.timer_register_writes_from_outside", obs.ext_seen);
+        add(stats, "event.control_line_batches", run.fired.len() as u64);
         add(stats, "probe.counts_checked", obs.lock.oracle.ticks_checked);
         add(stats, "probe.multi_count_updates", obs.lock.oracle.multi_tick_updates);
         add(stats, "probe.epochs", obs.lock.oracle.epochs);
@@ -211,6 +286,9 @@ impl Property for C17S {
 
     fn shrink(scn: &Scn) -> Vec<Scn> {
         let mut out = Vec::new();
+        for ev in remove_chunks(&scn.events) {
+            out.push(Scn { events: ev, ..scn.clone() });
+        }
         for blocks in remove_chunks(&scn.guest.blocks) {
             out.push(Scn { guest: GuestSpec { blocks, ..scn.guest.clone() }, ..scn.clone() });
         }
@@ -232,6 +310,6 @@ impl Property for C17S {
     }
 
     fn size(scn: &Scn) -> usize {
-        scn.guest.blocks.len() + scn.guest.blocks.iter().map(|b| if let Block::Delay(n) = b { (*n as usize) / 16 } else { 0 }).sum::<usize>()
+        scn.events.len() + scn.guest.blocks.len() + scn.guest.blocks.iter().map(|b| if let Block::Delay(n) = b { (*n as usize) / 16 } else { 0 }).sum::<usize>()
     }
 }
